@@ -16,7 +16,15 @@ CATALOGUE = {
     4: dict(tar=2, comp="zstd", fam="oci", lbl=True),
     5: dict(tar=2, comp="none", fam="docker", lbl=False),
     6: dict(tar=1, comp="esgz", fam="oci", lbl=False),
+    7: dict(tar=1, comp="zstd", fam="docker", lbl=False),
+    8: dict(tar=2, comp="gzip", fam="ocind", lbl=False),
+    9: dict(tar=1, comp="none", fam="dockerforeign", lbl=False),
+    10: dict(tar=2, comp="zstd", fam="ocind", lbl=False),
+    11: dict(tar=1, comp="gzip", fam="dockerforeign", lbl=True),
+    12: dict(tar=2, comp="none", fam="ocind", lbl=False),
 }
+# every source of the catalogue is converted by every mode in every run (free stage, whatever the seed)
+FIXED_FREE = [[1, 3, 4, 6], [2, 5, 7, 8], [9, 10, 11, 12]]
 PROPERTY_FORMULAS = ("DescDigestCommitted", "DescSize", "DescTocVerifies", "DescUncompressedSize", "StoreLabelIsDiffID",
                      "MediaTypeMatches", "ZstdManifestInfo", "DescDescribesBlob", "TocImageMapsEveryLayer", "NoConversionPanics",
                      "LosslessKeepsDiffID", "MapWritesMutuallyExclusive")
@@ -205,7 +213,7 @@ def check(run):
     # ---------------------------------------------------------------- R/G: schedules from the graph
     gen_srcs = {"esgz": [1, 4], "zstd": [2, 3], "ext": [2, 5], "extll": [3, 4]}
     if thorough:
-        gen_srcs = {"esgz": [1, 4, 6], "zstd": [2, 3, 6], "ext": [2, 5, 4], "extll": [3, 4, 1]}
+        gen_srcs = {"esgz": [1, 7, 6], "zstd": [2, 3, 10], "ext": [2, 12, 7], "extll": [3, 4, 9]}
     gen_ov = {mode: {"Mode": q(mode), "SrcIds": tla_set(gen_srcs[mode])} for mode in MODES}
     par.prefetch([dict(module="ConvertGen", cfg="Convert_gen.cfg", overrides=gen_ov[m]) for m in MODES])
     jobs = []
@@ -227,14 +235,15 @@ def check(run):
         gated[mode] = os.path.join(run.scratch, "gated_%s.ndjson" % mode)
         jobs.append({"out": gated[mode], "scenarios": scs})
     # ---------------------------------------------------------------- T: free-running parallel conversions
-    free_srcs = {"esgz": [1, 2, 3, 4, 5, 6], "zstd": [1, 2, 3, 4, 5, 6], "ext": [1, 2, 3, 4, 5, 6], "extll": [1, 2, 3, 5]}
+    allids = sorted(CATALOGUE)
+    free_srcs = {"esgz": allids, "zstd": allids, "ext": allids, "extll": [i for i in allids if CATALOGUE[i]["comp"] in ("none", "gzip")]}
     reps = 2 if thorough else 1
     for mode in MODES:
         scs = []
         ids = free_srcs[mode]
         combos = list(itertools.combinations(ids, 2)) + [(i, i) for i in ids[:2]]
         run.rng.shuffle(combos)
-        combos = combos if thorough else combos[:1]
+        combos = combos[:16] if thorough else combos[:1]
         k = 0
         for rep in range(reps):
             for a, b in combos:
@@ -242,7 +251,7 @@ def check(run):
                 scs.append({"name": "f-%s-%d" % (mode, k), "mode": mode, "sparecap": k % 2 == 1, "optset": (k // 2) % 2, "perlayer": k % 5 == 4,
                             "srcs": [CATALOGUE[a], CATALOGUE[b]], "free": True, "stale": k % 3 == 0})
             # every source layer of the mode is converted in every run, whatever the seed: one 4-way (and one 2-way) conversion
-            fixed = [[1, 3, 4, 6], [2, 5]] if len(ids) == 6 else [[1, 2, 3, 5]]
+            fixed = FIXED_FREE if rep == 0 else []
             extra = []
             if thorough:
                 n = 3
